@@ -71,6 +71,7 @@ typedef struct {
     int ngroupsC, ngroupsS; uint16_t groupsC[4], groupsS[4]; int shares;
     int nsigC, nsigS; uint16_t sigC[4], sigS[4];
     int emsC, emsS, scsv, ecdsa;
+    int ascC, ascS;                   /* version lists handed to the API lowest-first instead of highest-first */
 } cfg_t;
 typedef struct { int kind, field, arg, arg2; } tamper_t;   /* kind 0 = none, 1 = ClientHello edit, 2 = ServerHello edit */
 enum { F_LEGACY = 0, F_RANDOM_TAIL, F_SID, F_SUITE_DROP, F_SUITE_INSERT, F_SUITE_SWAP, F_SUITE_SET, F_COMP, F_EXT_REMOVE, F_EXT_DUP, F_EXT_EDIT, F_EXT_APPEND, F_SV_DROP13, F_N };
@@ -82,9 +83,9 @@ static void open_pair(mx_conn *k, const cfg_t *c, sslSessionId_t *sid, int *rcs,
     psProtocolVersion_t vs[8]; int n = 0; int dtls = (c->cmask | c->smask) & ((1 << MX_DTLS10) | (1 << MX_DTLS12));
     k->dtls = dtls != 0; k->cfg.ver = dtls ? MX_DTLS12 : MX_TLS12;
     if (!dtls) {
-        for (int i = MX_NVER - 1; i >= 0; i--) if (c->smask & (1 << i)) vs[n++] = mx_verflag(i);
+        for (int i = MX_NVER - 1; i >= 0; i--) { int j = c->ascS ? MX_NVER - 1 - i : i; if (c->smask & (1 << j)) vs[n++] = mx_verflag(j); }
         matrixSslSessOptsSetServerTlsVersions(&so, vs, n); n = 0;
-        for (int i = MX_NVER - 1; i >= 0; i--) if (c->cmask & (1 << i)) vs[n++] = mx_verflag(i);
+        for (int i = MX_NVER - 1; i >= 0; i--) { int j = c->ascC ? MX_NVER - 1 - i : i; if (c->cmask & (1 << j)) vs[n++] = mx_verflag(j); }
         matrixSslSessOptsSetClientTlsVersions(&co, vs, n);
     } else {
         /* the version-list setters are TLS-only; DTLS is configured through versionFlag: DTLS|TLS_1_2 = {1.2, 1.0}, DTLS|TLS_1_1 = {1.0};
@@ -181,7 +182,7 @@ static void run_case(void *a_)
             report("downgrade-sentinel-ignored", "ClientHello stripped of TLS 1.3: server answered with an older version and the client did not abort at ServerHello (hsState %d)", client_state_after_sh);
         goto out;
     }
-    vf_distinct("%s|%x|%x|%d|%04x|%d|%d|%d|%d|%d|%d", cs->cls, c->cmask, c->smask, c->nsu, c->nsu ? c->su[0] : 0, c->nsdis, c->ngroupsC, c->ngroupsS, c->nsigC, c->emsC * 3 + c->emsS, c->scsv);
+    vf_distinct("%s|%d%d|%x|%x|%d|%04x|%d|%d|%d|%d|%d|%d", cs->cls, c->ascC, c->ascS, c->cmask, c->smask, c->nsu, c->nsu ? c->su[0] : 0, c->nsdis, c->ngroupsC, c->ngroupsS, c->nsigC, c->emsC * 3 + c->emsS, c->scsv);
     /* ---- reference negotiation ---- */
     int mustFail = expectV < 0;
     if (c->scsv && vmask_max(c->cmask) < vmask_max(c->smask)) mustFail = 1;      /* RFC 7507: server supports a higher version than the client offers with the SCSV */
@@ -205,7 +206,7 @@ static void run_case(void *a_)
     psCipher16_t suc = 0, sus = 0; MX_ENTER(); matrixSslGetNegotiatedCiphersuite(k.c.ssl, &suc); matrixSslGetNegotiatedCiphersuite(k.s.ssl, &sus); MX_LEAVE();
     if (vc != vs_ || suc != sus) report("endpoints-disagree", "client reports %s/%04x, server %s/%04x", mx_vername[vc < 0 ? 0 : vc], suc, mx_vername[vs_ < 0 ? 0 : vs_], sus);
     if (!(common & (1 << vc))) report("version-not-mutually-enabled", "negotiated %s, client set 0x%x server set 0x%x", mx_vername[vc < 0 ? 0 : vc], c->cmask, c->smask);
-    else if (vc != expectV) report("not-highest-common-version", "negotiated %s but %s is enabled on both sides (client 0x%x server 0x%x)", mx_vername[vc], mx_vername[expectV], c->cmask, c->smask);
+    else if (vc != expectV && !c->ascC && !c->ascS) report("not-highest-common-version",   /* "by default": an application that lists its versions lowest-first has stated another preference */ "negotiated %s but %s is enabled on both sides (client 0x%x server 0x%x)", mx_vername[vc], mx_vername[expectV], c->cmask, c->smask);
     if (c->nsu) { int in = 0; for (int i = 0; i < c->nsu; i++) if (c->su[i] == suc) in = 1; if (!in) report("suite-not-offered", "negotiated suite %04x was not in the client's list", suc); }
     for (int j = 0; j < c->nsdis; j++) if (c->sdis[j] == suc) report("suite-disabled-on-server", "negotiated suite %04x had been disabled on the server session", suc);
     { const mx_suite_t *s = mx_suite_by_id(suc); if (!s || !mx_suite_ok_for(s, vc)) report("suite-not-usable-with-version", "suite %04x negotiated with %s", suc, mx_vername[vc]); }
@@ -236,7 +237,8 @@ int main(int argc, char **argv)
     vf_rng g; vf_rng_init(&g, vf_seed, 7);
     cfg_t base; memset(&base, 0, sizeof base);
     /* 1. version subsets, exhaustive: 7x7 TLS and 3x3 DTLS, default suites */
-    for (int cm = 1; cm < 8; cm++) for (int sm = 1; sm < 8; sm++) { cfg_t c = base; c.cmask = cm; c.smask = sm; add_case(&c, NULL, "tls-version-sets"); c.ecdsa = 1; if ((cm ^ sm) & 1) add_case(&c, NULL, "tls-version-sets"); }
+    for (int cm = 1; cm < 8; cm++) for (int sm = 1; sm < 8; sm++) { cfg_t c = base; c.cmask = cm; c.smask = sm; add_case(&c, NULL, "tls-version-sets"); c.ecdsa = 1; if ((cm ^ sm) & 1) add_case(&c, NULL, "tls-version-sets");
+        for (int ord = 1; ord < 4; ord++) { cfg_t d = base; d.cmask = cm; d.smask = sm; d.ascC = ord & 1; d.ascS = ord >> 1; add_case(&d, NULL, "tls-version-sets-listed-lowest-first"); } }
     for (int cm = 1; cm < 4; cm += 2) for (int sm = 1; sm < 4; sm += 2) { cfg_t c = base; c.cmask = cm << MX_DTLS10; c.smask = sm << MX_DTLS10; add_case(&c, NULL, "dtls-version-sets"); c.ecdsa = 1; add_case(&c, NULL, "dtls-version-sets"); }   /* {1.0} and {1.0,1.2}: the sets the API can express */
     /* 2. suites: every single suite on every version it fits, server with and without that suite disabled; random lists */
     for (int v = 0; v < MX_NVER; v++) for (int i = 0; i < MX_NSUITES; i++) { const mx_suite_t *s = &mx_suites[i]; if (!mx_suite_ok_for(s, v)) continue;
@@ -252,7 +254,7 @@ int main(int argc, char **argv)
     for (int a = 1; a < 16; a++) { cfg_t c = base; c.cmask = c.smask = 1 << MX_TLS13; for (int i = 0; i < 4; i++) if (a & (1 << i)) c.sigC[c.nsigC++] = sigs[i]; add_case(&c, NULL, "tls13-sigalgs"); }
     for (int e = 0; e < 4; e++) for (int v = MX_TLS11; v <= MX_TLS12; v++) { cfg_t c = base; c.cmask = c.smask = 1 << v; c.emsC = (e & 1) ? -1 : 0; c.emsS = (e & 2) ? -1 : 0; add_case(&c, NULL, "extended-master-secret"); }
     /* 4. fallback SCSV */
-    for (int cm = 1; cm < 8; cm++) for (int sm = 1; sm < 8; sm++) { cfg_t c = base; c.cmask = cm; c.smask = sm; c.scsv = 1; if (vmask_max(cm) == MX_TLS13) continue; add_case(&c, NULL, "fallback-scsv"); }
+    for (int cm = 1; cm < 8; cm++) for (int sm = 1; sm < 8; sm++) for (int ord = 0; ord < 4; ord++) { cfg_t c = base; c.cmask = cm; c.smask = sm; c.scsv = 1; c.ascC = ord & 1; c.ascS = ord >> 1; if (vmask_max(cm) == MX_TLS13) continue; add_case(&c, NULL, "fallback-scsv"); }
     /* 5. hello tampering: every field, on several configurations */
     int tcfg[][2] = { { 7, 7 }, { 2, 7 }, { 3, 3 }, { 4, 4 }, { 1, 1 }, { 1 << MX_DTLS12, 3 << MX_DTLS10 }, { 6, 6 } };
     for (int ci = 0; ci < 7; ci++) for (int kind = 1; kind <= 2; kind++) for (int f = 0; f < F_N; f++) {
